@@ -1,6 +1,6 @@
 #!/bin/bash
 # usage: try_mutant.sh <patch> <PROP> [tier]   -- applies the patch to /repo, runs the check, reverts
-patch=$1; prop=$2; tier=${3:-quick}
+patch=$(readlink -f "$1"); prop=$2; tier=${3:-quick}
 cd /repo || exit 2
 if ! git apply --check "$patch" 2>/dev/null; then
   if ! git apply --3way "$patch" 2>/dev/null; then echo "PATCH DOES NOT APPLY: $patch"; git checkout -- . ; git reset -q --hard HEAD; exit 3; fi
